@@ -414,6 +414,43 @@ fn do_get(actor: usize, op: UOp, pool: &UPool) -> Option<UObject> {
         opi
     });
     let mut stats = DriveStats::default();
+    if matches!(op, UOp::Remove { .. } | UOp::TryRemove | UOp::TimeoutRemove { .. }) {
+        // the pool's own remove family (get + take inside one call)
+        let end: PollEnd<Result<UObj, PoolError>> = match op {
+            UOp::Remove { .. } => drive(pool.remove(), &mut stats),
+            UOp::TimeoutRemove { t, .. } => drive(pool.timeout_remove(ms(t)), &mut stats),
+            _ => match catch_unwind(AssertUnwindSafe(|| pool.try_remove())) {
+                Ok(r) => PollEnd::Ready(r),
+                Err(p) => PollEnd::Panicked(p),
+            },
+        };
+        match end {
+            PollEnd::Ready(Ok(raw)) => {
+                let id = raw.id;
+                with_u(|w| {
+                    w.ops[opi].target = Some(id);
+                    let prev = w.objs[id as usize].loc;
+                    if !matches!(prev, Loc::Pool | Loc::Adding(_) | Loc::Returning(_)) || w.objs[id as usize].destroyed.is_some() {
+                        let p = w.sc.profile.clone();
+                        w.violate(&p, "exclusive_handout", format!("object #{id} removed while it is {:?}", prev));
+                    }
+                    w.objs[id as usize].loc = Loc::Raw(actor);
+                    w.raw[actor].push(raw);
+                    w.op_return(opi, URes::GotRaw(id));
+                });
+            }
+            PollEnd::Ready(Err(e)) => with_u(|w| w.op_return(opi, URes::Err(uerr(&e)))),
+            PollEnd::Cancelled => with_u(|w| {
+                w.fault("waiting_call_cancelled");
+                w.op_return(opi, URes::Cancelled)
+            }),
+            PollEnd::Panicked(p) => {
+                let m = panic_msg(p);
+                with_u(|w| w.op_return(opi, URes::Panicked(m)));
+            }
+        }
+        return None;
+    }
     let end: PollEnd<Result<UObject, PoolError>> = match op {
         UOp::Get { .. } | UOp::Remove { .. } => drive(pool.get(), &mut stats),
         UOp::TimeoutGet { t, .. } | UOp::TimeoutRemove { t, .. } => drive(pool.timeout_get(ms(t)), &mut stats),
@@ -953,7 +990,10 @@ pub fn after_step(w: &mut UWorld, info: &SimInfo) -> Option<Violation> {
     let max = w.sc.max_size();
     if is(w, "C05") && w.closed_step.is_none() && !w.close_invoked {
         let owned = w.n_owned();
-        if owned > max {
+        // a remove() in flight may already have taken its object out (the ledger learns which
+        // one when the call returns)
+        let removing = w.ops.iter().filter(|o| o.return_step.is_none() && matches!(o.op, UOp::Remove { .. } | UOp::TryRemove | UOp::TimeoutRemove { .. })).count();
+        if owned > max + removing {
             return Some(engine::violation("C05", "size_over_limit", format!("{owned} objects belong to the pool, max_size is {max}")));
         }
     }
